@@ -497,8 +497,39 @@ def rule_P10(ctx) -> None:
                     "message M { map<int32, google.protobuf.UInt32Value> m = 1; }  M().parse(b'\\x0a\\x06\\x08\\x01\\x12\\x02\\x08\\x05')")
 
 
+def rule_P11(ctx) -> None:
+    """proto comments are user text: before it is placed between triple quotes, backslashes are doubled and quotes
+    that could close the literal (a \"\"\" run, a quote at the very end) are neutralised"""
+    models = ctx.repo.mod(M_MODELS)
+    fn = models.func("get_comment")
+    ctx.analysed("get_comment")
+    lits = [n for n in ast.walk(fn) if isinstance(n, ast.JoinedStr) and any(isinstance(v, ast.Constant) and '"""' in str(v.value) for v in n.values)]
+    if not lits:
+        ctx.inconclusive("P11", "get_comment:docstring-escaping", "docstring literal construction not recognised", models.loc(fn))
+        return
+    # a conversion that yields a complete Python literal by itself (repr / !r) would also do
+    whole = all(all((not isinstance(v, ast.FormattedValue)) or v.conversion == 114 for v in n.values) for n in lits) and False
+    reps = []
+    for c in ast.walk(fn):
+        if isinstance(c, ast.Call) and isinstance(c.func, ast.Attribute) and c.func.attr == "replace" and len(c.args) == 2 and all(isinstance(a, ast.Constant) for a in c.args):
+            reps.append((c.args[0].value, c.args[1].value))
+    backslash = any(a == "\\" and b == "\\\\" for a, b in reps)
+    triple = any(a in ('"""', '"') and isinstance(b, str) and b.count("\\") >= 1 for a, b in reps)
+    all_quotes = any(a == '"' and isinstance(b, str) and "\\" in b for a, b in reps)
+    trailing = all_quotes or any(isinstance(c, ast.Call) and isinstance(c.func, ast.Attribute) and c.func.attr == "endswith" and c.args and isinstance(c.args[0], ast.Constant)
+                                 and c.args[0].value == '"' for c in ast.walk(fn))
+    missing = [n for n, ok in (("backslashes doubled", backslash), ('""" runs broken up', triple), ("a trailing quote escaped", trailing)) if not ok]
+    if whole or not missing:
+        ctx.proved("P11", "get_comment:docstring-escaping", models.loc(fn), f"{len(lits)} docstring literals; replacements {reps}")
+    else:
+        ctx.refuted("P11", "get_comment:docstring-escaping", ";".join(missing), models.loc(fn),
+                    f"get_comment copies the comment text of the .proto file between triple quotes without: {missing}. A comment that ends in a double quote, contains \"\"\" or a "
+                    "backslash (C:\\new, a regex, a trailing \\) yields a module that is not valid Python (the plugin then fails in its formatter)",
+                    '// says "hi"   or   // matches \\x41')
+
+
 def run(ctx) -> None:
-    for name, fn in (("P1", template.rule_P1), ("P2", rule_P2), ("P3", rule_P3), ("P4", rule_P4), ("P5", rule_P5), ("P6", rule_P6), ("P7", rule_P7), ("P8", rule_P8), ("Y2iii", template.rule_Y2iii), ("P9", rule_P9), ("P10", rule_P10)):
+    for name, fn in (("P1", template.rule_P1), ("P2", rule_P2), ("P3", rule_P3), ("P4", rule_P4), ("P5", rule_P5), ("P6", rule_P6), ("P7", rule_P7), ("P8", rule_P8), ("Y2iii", template.rule_Y2iii), ("P9", rule_P9), ("P10", rule_P10), ("P11", rule_P11)):
         ctx.rules_run.append(name)
         fn(ctx)
     from . import phases
